@@ -33,6 +33,18 @@ int main()
       Erat e;
       e.init(u64(t[1]), u64(t[2]), u64(t[3]), pool);
       std::cout << e.segmentLow_ << " " << e.segmentHigh_ << " " << e.sieve_.size() << " " << e.maxEratSmall_ << " " << e.maxEratMedium_ << " " << Erat::getL1CacheSize() << std::endl;
+    } else if (t.size() >= 4 && t[0] == "SEGS") {
+      // the segments Erat sieves for (start, stop, sieve size): "low high bytes | low high bytes | ..." (at most 40 printed,
+      // then the total number); no sieving primes are added, so this is cheap at every magnitude
+      MemoryPool pool; Erat e; e.init(u64(t[1]), u64(t[2]), u64(t[3]), pool);
+      uint64_t n = 0; std::string out;
+      while (e.hasNextSegment() && n < 5000) {
+        uint64_t low = e.segmentLow_, high = e.segmentHigh_;
+        e.sieveSegment();
+        if (n < 40) out += std::to_string(low) + " " + std::to_string(high) + " " + std::to_string(e.sieve_.size()) + " | ";
+        n++;
+      }
+      std::cout << out << "n=" << n << std::endl;
     } else if (t.size() >= 4 && (t[0] == "ASP30" || t[0] == "ASP210")) {
       // Wheel::addSievingPrime unit level: "<multipleIndex> <wheelIndex>" | "none"
       if (t[0] == "ASP30") { Rec<Wheel30_t> w; w.stop_ = u64(t[1]); w.addSievingPrime(u64(t[2]), u64(t[3])); if (w.stored) std::cout << w.mi << " " << w.wi << std::endl; else std::cout << "none" << std::endl; }
